@@ -14,8 +14,8 @@ import json, os, itertools, subprocess
 import vlib
 from vlib import Check, tlc, scratch, seed, log
 
-STATES_QUICK = ["base", "snapdue", "hard"]
-STATES_THOROUGH = ["base", "snapdue", "hard", "learned", "full"]
+STATES_QUICK = ["base", "snapdue", "hard", "noflush", "learned"]
+STATES_THOROUGH = ["base", "snapdue", "hard", "noflush", "learned", "full", "snap2"]
 SCHEDLAB = os.path.join(vlib.BIN, "schedlab")
 
 
